@@ -17,11 +17,15 @@ def run(chk, prog, tier):
     PL.encoder_idempotence_rule(chk, prog, roles)     # displacement emission must not consume the record (it is assembled again when chunk fitting pads)
     CV.cover_rule(chk, prog, roles)                   # displacement / SIB bytes: every byte below the returned length is written
     PL.outparam_kill_rule(chk, prog)                  # the radix / sign one displacement scanner decides is not reset by the next one
+    CR.radix_rule(chk, prog)                          # `[rsp+010]` is ten, as nasm reads it
+    CR.mem_index_rule(chk, prog)
+    from valib import opt as OPTM
+    OPTM.record_bits_rule(chk, prog)                  # the SIB option bits of the line are the instance's (the immediate scanner only resolves the mov-immediate bits)
     chk.explanation = (
         "Decides necessary structural conditions of C02 only: the mod/SIB/no-base constants have their architectural "
         "values, the scale switch accepts exactly 1,2,4,8 and maps them to the SIB scale bits, ModRM is composed as "
         "mod | reg<<3 | rm (rm=100b for SIB) and SIB as scale | index<<3 | base with the index/base fields of the "
         "operand in those positions; a base-less operand (base=101b) always gets mod=00; the emitter does not consume the "
         "record and writes every byte it counts; what one displacement scanner stores through a shared out-parameter (radix, "
-        "sign) is not unconditionally overwritten by the scanner called next (OUTKILL). NOT decided: displacement scanning and sign handling, mod selection by "
+        "sign) is not unconditionally overwritten by the scanner called next (OUTKILL); stores into the per-line copy of the option field never touch the SIB option bits (RECBITS); strtoul is always given the scanner's radix, 10 or 16 (RADIX). NOT decided: displacement scanning and sign handling, mod selection by "
         "magnitude, rbp/r13 and rsp/r12 special cases, equivalence of NASM rewriting - all value logic on runtime strings.")
